@@ -255,6 +255,9 @@ def _big_stack():
 _RE_FAIL = re.compile(r"=\s*\[(.*?)\]\s*:\s*list nat", re.S)
 
 
+_EVAL_COUNTER = __import__("itertools").count()
+
+
 def coq_eval(tag, imports, cases, shard=400, timeout=900):
     """cases: list of (model_term, expected_python_value_or_V_text).
     Evaluates [V_eqb model_term expected] for every case with vm_compute in
@@ -264,7 +267,10 @@ def coq_eval(tag, imports, cases, shard=400, timeout=900):
     tried once more after a rebuild (a concurrent build may have replaced a
     .vo under it) before it counts."""
     import shutil
-    cdir = os.path.join(BUILD, "cases", "p%d" % os.getpid())
+    # one directory per call: checks may run several evaluations side by
+    # side in threads
+    cdir = os.path.join(BUILD, "cases", "p%d_%d" % (os.getpid(),
+                                                    next(_EVAL_COUNTER)))
     shutil.rmtree(cdir, ignore_errors=True)
     os.makedirs(cdir, exist_ok=True)
     files = []
